@@ -65,7 +65,7 @@ OUTLINE_OPS = (
 	.anchor(PF, 'PodTypeFormatter.get_size_descriptor', {})
 	.anchor(EF, 'EnumTypeFormatter.__init__', {0: ('enum_base_flag', 'string'), 1: ('enum_base_plain', 'string')})
 	.anchor(EF, 'EnumTypeFormatter.get_base_class', {0: ('enum_base_open', 'string'), 1: ('enum_base_close', 'string')})
-	.anchor(SF, 'filter_size_if_first', {1: ('first_size_name', 'string')})
+	.anchor(SF, 'filter_size_if_first', {3: ('first_size_name', 'string')})
 	.anchor(SF, 'StructFormatter.create_getter_descriptor', {2: ('computed_suffix', 'string'), 6: ('ma_getter', 'string')})
 	.anchor(SF, 'StructFormatter.create_setter_descriptor', {2: ('ma_setter_open', 'string'), 3: ('ma_setter_close', 'string')})
 	.anchor(SF, 'StructFormatter.get_getter_descriptors', {})
